@@ -54,8 +54,11 @@ pub trait Host {
     /// Which of the `pending` stored task closures to execute now, if any.
     /// `must` is true when n2 is blocked in recv on an empty channel.
     fn pick_exec(&mut self, pending: usize, must: bool) -> Option<usize>;
-    /// Which sender's head message to deliver (index into the non-empty queues).
-    fn pick_deliver(&mut self, nonempty: usize) -> usize;
+    /// A new channel was created (one per `Runner`, i.e. per build phase).
+    fn on_channel(&mut self);
+    /// Which sender's head message to deliver: index into `nonempty`, the ids
+    /// of the senders (numbered in clone order from 1) with queued messages.
+    fn pick_deliver(&mut self, nonempty: &[usize]) -> usize;
     /// The simulated subprocess; `None` = really spawn it.
     fn command(
         &mut self,
@@ -422,6 +425,7 @@ pub mod shim {
                 }
             }
             pub fn channel<T>() -> (Sender<T>, Receiver<T>) {
+                super::super::super::with_host(|h| h.on_channel());
                 let ch = Rc::new(Chan {
                     queues: RefCell::new(vec![VecDeque::new()]),
                 });
@@ -456,7 +460,7 @@ pub mod shim {
                         }
                         background(false);
                         let nonempty = self.nonempty();
-                        let k = with_host(|h| h.pick_deliver(nonempty.len())).unwrap_or(0);
+                        let k = with_host(|h| h.pick_deliver(&nonempty)).unwrap_or(0);
                         let i = nonempty[k.min(nonempty.len() - 1)];
                         return Ok(self.ch.queues.borrow_mut()[i].pop_front().unwrap());
                     }
